@@ -71,6 +71,76 @@ func runC09(r *Run) {
 	r.rule("C09.R3", "cache-context discipline at every CacheContext() site in consensus code: (d1) no store write through the parent context while the cache is open, (d2) commit reachable only if every fallible step using the cache context succeeded, (d3) no failure reported after the commit, (d4) one cache context per committed item", 40)
 	r.rule("C09.R4", "Begin/EndBlock-reachable code: a call whose failure is logged and skipped (not propagated) must have no write-before-failure pair of its own (its partial effects would survive)", 10)
 	r.rule("C09.R5", "a deferred function that performs a store write is guarded by `<named error result> == nil`", 1)
+	r.rule("C09.R6", "oracle params are modified on a copy read from the store, never on the in-memory aggregator's params (a rejected update would leave the process-local state changed)", 2)
+	r.rule("C09.R7", "a failed Ethereum transaction leaves no precompile effect: the message runs on the per-transaction cache context that is committed only on success (C19.R3 obligations)", 4)
+	if r.Prop == "C09" {
+		sub := NewRun(r.W, "C19", r.Tier, r.Seed)
+		runC19(sub)
+		n := 0
+		for _, o := range sub.Obs {
+			if o.Rule != "C19.R3" {
+				continue
+			}
+			n++
+			if o.Status == "ok" {
+				r.ok("C09.R7", o.Key, o.Pos, o.Desc)
+			} else {
+				r.bad("C09.R7", o.Key, o.Pos, o.Desc, o.Detail)
+			}
+		}
+		if n == 0 {
+			r.bad("C09.R7", "evm|none", "-", "C19.R3 obligations present", "no obligations")
+		}
+	}
+	for _, nm := range []string{"msgServer.UpdateParams", "Keeper.RegisterNewTokenAndSetTokenFeeder"} {
+		pv := w.View("x/oracle/keeper", nm)
+		if pv == nil {
+			r.bad("C09.R6", "anchor|"+nm, "-", "anchor", nm+" not found")
+			continue
+		}
+		r.saw(pv.ID())
+		// the value handed to SetParams: all of its definitions are Keeper.GetParams(ctx) or results of pure
+		// Params methods applied to it
+		okSrc, why := false, "no SetParams call"
+		for _, c := range pv.CallsNamed("SetParams") {
+			if len(c.Args) != 2 {
+				continue
+			}
+			obj := pv.objOf(c.Args[1])
+			if obj == nil {
+				why = "SetParams is not given a local variable"
+				continue
+			}
+			okSrc, why = true, ""
+			for _, d := range pv.defsOf(obj) {
+				dc, isC := stripParens(d).(*ast.CallExpr)
+				if !isC {
+					okSrc, why = false, "the params variable is defined by "+exprString(d)
+					continue
+				}
+				recv, mname, _, isM := methodCall(dc)
+				if !isM {
+					okSrc, why = false, "the params variable is defined by "+exprString(d)
+					continue
+				}
+				if mname == "GetParams" {
+					// must be the keeper's store read (takes a context), not the aggregator context's in-memory copy
+					cal := pv.callee(dc)
+					fromStore := cal != nil && cal.Pkg() != nil && strings.HasSuffix(cal.Pkg().Path(), "x/oracle/keeper") && len(dc.Args) == 1
+					if !fromStore {
+						okSrc, why = false, "the params to modify come from "+exprString(dc)+" (the in-memory aggregator context shares its Token/TokenFeeder objects with this copy)"
+					}
+					continue
+				}
+				// p, err = p.AddSources(...) etc.: method on the same variable
+				if pv.objOf(recv) == obj {
+					continue
+				}
+				okSrc, why = false, "the params variable is defined by "+exprString(d)
+			}
+		}
+		r.check(okSrc, "C09.R6", "oracle-params|from-store|"+nm, pv.pos(pv.Decl), "the params being modified are a fresh copy from the store", nm+": "+why)
+	}
 
 	a := newWBF(w)
 	// R1
